@@ -141,7 +141,9 @@ func (fv *FuncVC) evalSpec(env *SpecEnv, e SExpr) Val {
 			ne.bound[bv.Name] = val
 			// type facts as guards for refs: none (quantify over all ints) except interface sanity
 		}
+		fv.binderDepth++
 		body := fv.evalSpec(ne, x.Body).One()
+		fv.binderDepth--
 		_ = guards
 		q := "exists"
 		if x.Forall {
@@ -886,6 +888,18 @@ func (fv *FuncVC) evalCall(env *SpecEnv, x *SCall) Val {
 		engineErr("unknown spec function %s", id.Name)
 	}
 	if sel, ok := x.Fun.(*SSel); ok {
+		// conversion pkg.T(x)
+		if id, ok := sel.X.(*SIdent); ok && len(x.Args) == 1 && !fv.isLocalName(env, id.Name) {
+			if _, isBound := env.bound[id.Name]; !isBound {
+				if t, err := fv.v.ResolveType(id.Name+"."+sel.Name, env.pkg); err == nil {
+					v := fv.evalSpec(env, x.Args[0])
+					if len(v.C) == len(fv.m.Flatten(t)) {
+						return Val{T: t, C: v.C, St: v.St}
+					}
+					engineErr("conversion to %v from a value of different shape", t)
+				}
+			}
+		}
 		// pkg.Func(...) or recv.Method(...)
 		if id, ok := sel.X.(*SIdent); ok && !fv.isLocalName(env, id.Name) {
 			if _, isBound := env.bound[id.Name]; !isBound {
@@ -1061,6 +1075,13 @@ func (fv *FuncVC) specMethodCall(env *SpecEnv, recv Val, name string, args []Val
 	}
 	st := fv.stateOf(env, recv)
 	if _, isIface := t.Underlying().(*types.Interface); isIface {
+		if dt, ok := fv.typeByID[recv.C[0]]; ok {
+			// statically known dynamic type
+			rv := fv.unbox(st, recv.C[1], dt)
+			rv.T = dt
+			rv.St = recv.St
+			return fv.specMethodCall(env, rv, name, args)
+		}
 		// interface method with pure interface contract?
 		if n, ok := types.Unalias(t).(*types.Named); ok && n.Obj().Pkg() != nil {
 			if con := fv.v.ifaceCon[n.Obj().Pkg().Path()+"."+n.Obj().Name()+"."+name]; con != nil && con.Pure {
